@@ -379,8 +379,13 @@ class _SktimeForecaster(BaseForecaster):
                 f"{self.__class__.__name__} will be refit each time "
                 f"`update` is called."
             )
-            # refit with updated data, not only passed data
-            self.fit(self._y, self._X, self.fh)
+            # refit with updated data, not only passed data; hand over the horizon
+            # seen so far, if any: forecasters that take the horizon in `predict`
+            # can be refitted without one (`self.fh` would raise here). `fit`
+            # must see an unfitted forecaster, otherwise the optional-horizon
+            # mixin insists on a horizon.
+            self._is_fitted = False
+            self.fit(self._y, self._X, self._fh)
         return self
 
     def update_predict(
